@@ -2267,8 +2267,11 @@ class unyt_array(np.ndarray):
          [8. 8.]] km*s**2
         """
         res_units = self.units * getattr(b, "units", NULL_UNIT)
-        ret = self.view(np.ndarray).dot(np.asarray(b), out=out) * res_units
-        if out is not None:
+        # ndarray.dot hands the out buffer back: give it the bare buffer, so that
+        # the buffer's old units do not end up multiplied into the result
+        bare_out = None if out is None else np.asarray(out)
+        ret = self.view(np.ndarray).dot(np.asarray(b), out=bare_out) * res_units
+        if getattr(out, "units", None) is not None:
             out.units = res_units
         return ret
 
